@@ -634,11 +634,19 @@ def _disagree(res, name, inp, model, impl):
 
 
 def correspondence(ctx):
-    return _run(ctx)
+    from props import c20_extra
+
+    r = _run(ctx)
+    r.merge(c20_extra.run(ctx))
+    return r
 
 
 def search(ctx, prior):
-    return _run(ctx, oracle_only=True, scale=2)
+    from props import c20_extra
+
+    r = _run(ctx, oracle_only=True, scale=2)
+    r.merge(c20_extra.run(ctx, scale=2))
+    return r
 
 
 def _case_from_public(d):
@@ -656,6 +664,13 @@ def _case_from_public(d):
 
 
 def replay(ctx, doc):
+    if doc["failure"]["input"].get("kind") in ("scripted-login", "encoding-mismatch"):
+        from props import c20_extra
+
+        r = c20_extra.run(ctx)
+        hit = [f for f in r.oracle_failures if f["signature"] == doc["failure"]["signature"]]
+        print(hit[:2])
+        return bool(hit)
     inp = doc["failure"]["input"]
     if inp.get("kind") == "parse_command":
         g = run_function_level([("parse", inp["line"])])[0]
